@@ -11,6 +11,7 @@
 package c06
 
 import (
+	"bytes"
 	"context"
 	"fmt"
 	"math/rand"
@@ -20,6 +21,7 @@ import (
 	"sync"
 	"time"
 
+	"github.com/sergeii/swat4master/pkg/gamespy/crypt"
 	"github.com/sergeii/swat4master/pkg/udp/udpserver"
 	"github.com/sergeii/swat4master/verifharness/internal/core"
 	"github.com/sergeii/swat4master/verifharness/internal/reputil"
@@ -229,6 +231,19 @@ func gen(rng *rand.Rand, tier core.Tier, emit core.Emit) {
 	}
 	emit("tcp", "0", "none")
 	emit("tcp", "2", "none")
+	// valid requests from an IPv4 peer seen as IPv4-mapped, and from an IPv6 peer, with and without servers to pack
+	for _, op := range []string{"tcpm", "tcp6"} {
+		for _, k := range []string{"0", "1", "3"} {
+			emit(op, k, core.Hex(BrowserRequest(rng, "", []string{"hostname", "gametype"}, []byte{0, 0, 0, 0})))
+			emit(op, k, core.Hex(BrowserRequest(rng, "gametype='CO-OP'", []string{"hostname", "numplayers", "bogus"}, []byte{0, 0, 0, 1})))
+		}
+	}
+	// the cipher under the concurrency of the connection goroutines
+	if tier == core.Thorough {
+		emit("encpar", "64", "400000")
+	} else {
+		emit("encpar", "64", "60000")
+	}
 	for i := 0; i < nt; i++ {
 		k := fmt.Sprint([]int{0, 0, 1, 3}[rng.Intn(4)])
 		switch rng.Intn(6) {
@@ -243,7 +258,7 @@ func gen(rng *rand.Rand, tier core.Tier, emit core.Emit) {
 			b := append([]byte{byte(ln >> 8), byte(ln)}, core.RandBytes(rng, ln-2)...)
 			emit("tcp", k, core.Hex(b))
 		case 2:
-			emit("tcp", k, core.Hex(validRequest(rng)))
+			emit([]string{"tcp", "tcpm", "tcp6"}[rng.Intn(3)], k, core.Hex(validRequest(rng)))
 		default:
 			mutateTCP(rng, func(b []byte) { emit("tcp", k, core.Hex(b)) })
 		}
@@ -297,7 +312,13 @@ func exec(op string, args []string) []string {
 		case "hist":
 			out = reputil.RunHistory(args)
 		case "tcp":
-			out = runTCP(args)
+			out = runTCP(args, "4")
+		case "tcpm": // the same through a dual-stack listener: the handler sees the IPv4 peer as a 16-byte IPv4-mapped address
+			out = runTCP(args, "m")
+		case "tcp6": // … and an IPv6 peer (::1)
+			out = runTCP(args, "6")
+		case "encpar":
+			out = runEncPar(args)
 		case "udpsrv":
 			out = runUDPServer(args)
 		default:
@@ -332,7 +353,67 @@ func theListener() *net.TCPListener {
 	return listener
 }
 
-func runTCP(args []string) []string {
+var (
+	ln6Once   sync.Once
+	listener6 *net.TCPListener
+)
+
+// theListener6: a wildcard dual-stack listener ("tcp", [::]:0), as the browser component opens for ":28910"; nil when
+// the host has no IPv6 (the cases then run over the IPv4 listener)
+func theListener6() *net.TCPListener {
+	ln6Once.Do(func() {
+		if l, err := net.ListenTCP("tcp", &net.TCPAddr{IP: net.IPv6unspecified}); err == nil {
+			listener6 = l
+		}
+	})
+	return listener6
+}
+
+// runEncPar <goroutines> <iterations>: crypt.Encrypt (the browser's reply path: one call per connection goroutine)
+// hammered from many goroutines at once; every ciphertext must decrypt to its plaintext and nothing may panic.
+func runEncPar(args []string) []string {
+	if len(args) != 2 {
+		return []string{"bad-op"}
+	}
+	g, err1 := strconv.Atoi(args[0])
+	n, err2 := strconv.Atoi(args[1])
+	if err1 != nil || err2 != nil || g < 1 || n < 1 {
+		return []string{"bad-op"}
+	}
+	var sk [crypt.GMSL]byte
+	copy(sk[:], "tG3j8c")
+	errs := make(chan string, g)
+	var wg sync.WaitGroup
+	for i := 0; i < g; i++ {
+		wg.Add(1)
+		go func(i int) {
+			defer wg.Done()
+			txt, ok := core.Guard(func() {
+				var ch [crypt.CCHL]byte
+				for j := 0; j < n; j++ {
+					ch[0], ch[1], ch[2] = byte(i), byte(j), byte(j>>8)
+					plain := []byte{byte(i), byte(j), 0x5c, 0xff}
+					out := crypt.Encrypt(sk, ch, append([]byte{}, plain...))
+					if back := crypt.Decrypt(sk, ch, out); !bytes.Equal(back, plain) {
+						panic("round trip differs")
+					}
+				}
+			})
+			if !ok {
+				errs <- txt
+			}
+		}(i)
+	}
+	wg.Wait()
+	select {
+	case txt := <-errs:
+		return []string{"panic:" + txt, "same"}
+	default:
+		return []string{"ok", "same"}
+	}
+}
+
+func runTCP(args []string, flavour string) []string {
 	if len(args) != 2 {
 		return []string{"bad-op"}
 	}
@@ -361,9 +442,19 @@ func runTCP(args []string) []string {
 	before := reputil.JoinDump(w.Dump())
 
 	ln := theListener()
+	network, target := "tcp4", ln.Addr().(*net.TCPAddr)
+	if l6 := theListener6(); l6 != nil && flavour != "4" {
+		ln = l6
+		port := l6.Addr().(*net.TCPAddr).Port
+		if flavour == "6" {
+			network, target = "tcp6", &net.TCPAddr{IP: net.IPv6loopback, Port: port}
+		} else {
+			target = &net.TCPAddr{IP: net.IPv4(127, 0, 0, 1), Port: port}
+		}
+	}
 	var client *net.TCPConn
 	for i := 0; ; i++ {
-		c, err := net.DialTCP("tcp4", nil, ln.Addr().(*net.TCPAddr))
+		c, err := net.DialTCP(network, nil, target)
 		if err == nil {
 			client = c
 			break
